@@ -108,10 +108,15 @@ def _unescape_tla(s):
     return s.replace('\\"', '"').replace("\\\\", "\\")
 
 
+import itertools
+_TLC_SEQ = itertools.count(1)
+
+
 def tlc(ctx, module, cfg=None, workers=1, trace=None, env=None, timeout=3600, simulate=None, depth=None,
         extra=None, mode="trace"):
     """Run TLC on spec/<module>.tla.  Returns dict(stdout, generated, distinct, viol[list], tagged{tag:[json]}, ok)."""
-    meta = ctx.path("tlc-%s-%d" % (module, int(time.time() * 1000) % 100000000))
+    # unique per call: several threads start TLC on the same module in the same millisecond (warm.py, chunked replays)
+    meta = ctx.path("tlc-%s-%d-%d" % (module, os.getpid(), next(_TLC_SEQ)))
     cmd = ["tlc", "-workers", str(workers), "-metadir", meta, "-cleanup", "-noGenerateSpecTE",
            "-config", cfg if (cfg and os.path.isabs(cfg)) else os.path.join(SPEC, (cfg or module) + ".cfg")]
     if simulate:
